@@ -4,6 +4,8 @@ import json, os
 V = os.path.dirname(os.path.dirname(os.path.abspath(__file__)))
 TECH = "machine-checked proof in Coq 8.16 over a hand-written executable model; model tied to the current source by a differential correspondence run (Go harness via -overlay vs vm_compute of the model) and, where noted, go/ast translators; property monitor evaluated in Coq on implementation traces"
 CLAIMED = {
+ "C10": ("Kernel-checked: printing a header and parsing it back returns byte-identical raw fields for every list of well-formed raw fields (byte-level model of go-message ReadHeader/WriteHeader); loading the spool returns the stored header, body and metadata with only the connection state stripped, on the first attempt, after metadata rewrites and restarts; the stored files do not depend on the connection state (no credentials). The header model is compared with go-message on generated and malformed header bytes; the real queue is run with a recording target through retry and restart and everything handed over is compared with what was accepted, spool files are searched for the session credentials. Partial: the JSON codec of the metadata is a hypothesis (exercised, not proved).",
+         "Trusted: Coq kernel, Go harness, hand-written header model validated differentially, JSON round trip assumed; headers beyond 20 kB are compared byte-wise by the harness only."),
  "C18": ("Kernel-checked for every metadata, stored error set and failed-recipient list: no report for the null sender or without bounce pipeline; a report is sent without original sender, so reports never trigger reports; null return path, addressed to the sender; the per-recipient groups are exactly the failed recipients in order, under the address the sender used, with the stored status and a single-line diagnostic; a due report is always generated when every failed recipient has a status class (guaranteed by C16_queue_error_has_status). emitDSN is compared with the model on generated inputs, the report being parsed with the standard library's MIME parser; an integrated stream runs the real queue over several attempts. Partial: MIME multipart framing and header folding are go-message's and only checked well-formed on the implementation.",
          "Trusted: Coq kernel, Go harness and its 30-line field parser, IDNA selection as recorded tables, hand-written model validated differentially; dates ignored."),
  "C01": ("Kernel-checked for every configuration, every set of recipients and every finite sequence of per-attempt fault plans (any stage x temp/perm/unclassified, atomic or per-recipient targets honouring the status contract): the queue records exactly the attempt's outcome per recipient; that outcome is 'delivered' iff the downstream committed for it; exactly one terminal outcome per recipient once the message left the queue; re-attempt only after a temporary/unclassified failure with the counter increasing by one; the message leaves the queue within max_tries attempts; enqueueing de-duplicates. The model is compared with the real queue driven by a scripted target and a recording bounce target, and the property itself is monitored on the implementation's traces (this found and led to two repairs: duplicate recipients, commit failure overwriting permanent statuses).",
